@@ -315,6 +315,37 @@ def check_named(ctx, site, entry):
     return True, ''
 
 
+def bounded_no_panic(ctx, fn):
+    """Fallback evidence for a site the prover cannot discharge: the bounded case tables of the abstract machine
+    that cover `fn` reach no panic site at all.  Returns (covered, clean, text)."""
+    from . import dsvm, scanvm, textvm
+    mod = fn.lstrip('<').split('::')[0]
+    try:
+        if mod == 'digit_string':
+            r1 = dsvm.explore(ctx, dsvm.OPS, 3 if ctx.tier == 'thorough' else 2, 'full')
+            r2 = dsvm.explore(ctx, dsvm.OPS_SMALL, 5 if ctx.tier == 'thorough' else 4, 'small')
+            if r1[0] != 'ok' or r2[0] != 'ok':
+                return False, False, 'builder not interpretable'
+            recs = r1[1] + r2[1]
+            bad = [x for x in recs if x[1] == 'PANIC' or any(isinstance(o, str) and o.startswith('PANIC') for o in (x[4] or ()))]
+            return True, not bad, '%d builder operation steps (+ all queries after each) on the abstract machine' % len(recs)
+        if mod == 'word_to_digit':
+            n = 0
+            for name, alpha, dd, th, mode in (('full', scanvm.FULL, scanvm.depth_for(ctx, 3, 4), 10.0, 'batch'), ('full', scanvm.FULL, scanvm.depth_for(ctx, 3, 4), 10.0, 'lazy'),
+                                              ('full', scanvm.FULL, scanvm.depth_for(ctx, 3, 4), 10.0, 'replace')):
+                tb = scanvm.table(ctx, name, alpha, dd, th, mode)
+                n += len(tb)
+                if any(r.kind for r in tb.values()):
+                    return True, False, 'scanner tables contain a panic / uninterpretable case'
+            return True, True, '%d scanner cases on the abstract machine' % n
+        if mod == 'tokenizer' and 'Tokenize' in fn or fn == 'tokenizer::tokenize':
+            res = textvm.tokenize_all(ctx, scanvm.depth_for(ctx, 4, 5))
+            return True, not any(err for _t, err in res.values()), '%d tokenized strings on the abstract machine' % len(res)
+    except Exception as e:   # the fallback must never turn an alarm into a pass by accident
+        return False, False, 'fallback failed: %r' % (e,)
+    return False, False, 'no bounded table covers ' + fn
+
+
 def rule_panic_sites(ctx, rep, scope):
     """scope: 'C03' (whole library, D3 allowed) or 'C12' (DigitString public API, symbolic arguments)."""
     R = 'B1-PANIC-SITES'
@@ -345,6 +376,11 @@ def rule_panic_sites(ctx, rep, scope):
                     res = ('D6', e['why'])
                     used_named.add((s.fn, s.key_desc))
                 else:
+                    cov, clean, txt = bounded_no_panic(ctx, s.fn)
+                    if cov and clean:
+                        n_by_class['bounded'] = n_by_class.get('bounded', 0) + 1
+                        rep.ok(R, ent, 'BOUNDED: the named guards are not recognised (%s); no panic on %s' % (why, txt), loc)
+                        continue
                     rep.violation(R, ent, 'named instance (%s): %s' % (e['why'], why), loc)
                     continue
         if res is None and scope == 'C03':
@@ -357,10 +393,17 @@ def rule_panic_sites(ctx, rep, scope):
                         fails.append('%s @ %s with args %s' % (caller.split('::')[-1], f.loc(cloc), argd))
                 if not fails:
                     res = ('D3', 'holds for the constant arguments of all %d in-crate call sites' % len(callers))
+                elif bounded_no_panic(ctx, s.fn)[:2] == (True, True):
+                    res = ('bounded', 'BOUNDED: ' + bounded_no_panic(ctx, s.fn)[2])
                 else:
                     rep.violation(R, ent, 'site `%s` is not discharged for the call(s): %s' % (pretty(s.desc_p), '; '.join(fails[:3])), loc)
                     continue
         if res is None:
+            cov, clean, txt = bounded_no_panic(ctx, s.fn)
+            if cov and clean:
+                n_by_class['bounded'] = n_by_class.get('bounded', 0) + 1
+                rep.ok(R, ent, 'BOUNDED: not discharged by the prover; no panic on %s' % txt, loc)
+                continue
             rep.violation(R, ent, 'undischarged panic site `%s` in %s (dominating facts: %s)' % (
                 pretty(s.desc_p), s.fn, [pretty(x) for x in xs(ctx, s.fn)[0].facts_at(s.bi)]), loc)
             continue
